@@ -287,8 +287,15 @@ def coq_results(pid: str, header: str, case_terms: list[str], checker: str, shar
     Returns list[bool|None] (None = shard failed to compile) and a log of failures."""
     d = BUILD / pid
     d.mkdir(parents=True, exist_ok=True)
+    # file names carry the process id: two checks of one property running at once must not clobber each other's
+    # shards; leftovers of earlier runs (kept when a shard failed) are removed after two hours
     for old in d.glob(f"{tag}_*"):
-        old.unlink()
+        try:
+            if time.time() - old.stat().st_mtime > 7200:
+                old.unlink()
+        except OSError:
+            pass
+    me = f"{tag}_p{os.getpid()}"
     files = []
     for k in range(0, len(case_terms), shard):
         chunk = case_terms[k:k + shard]
@@ -300,7 +307,7 @@ def coq_results(pid: str, header: str, case_terms: list[str], checker: str, shar
         body.append(f"Definition results := List.map ({checker}) cases.")
         body.append('Definition show (bs : list bool) : Coq.Strings.String.string := Coq.Strings.String.concat ""%string (List.map (fun b : bool => if b then "1"%string else "0"%string) bs).')
         body.append("Eval vm_compute in show results.")
-        p = d / f"{tag}_{k // shard}.v"
+        p = d / f"{me}_{k // shard}.v"
         p.write_text("\n".join(body) + "\n")
         files.append((p, len(chunk)))
     results, logs = [], []
@@ -309,6 +316,8 @@ def coq_results(pid: str, header: str, case_terms: list[str], checker: str, shar
     from concurrent.futures import ThreadPoolExecutor
     with ThreadPoolExecutor(max_workers=8) as ex:
         outs = list(ex.map(lambda pf: coq_eval_file(pf[0], timeout), files))
+    # a shard that ran out of time on a loaded machine is not a disagreement: once more, alone, with four times the budget
+    outs = [coq_eval_file(pf[0], timeout * 4) if rc == 124 else (rc, out) for pf, (rc, out) in zip(files, outs)]
     for (p, n), (rc, out) in zip(files, outs):
         m = re.search(r'=\s*"([01]*)"', out.replace("\n", "").replace(" ", "")) if rc == 0 else None
         if rc != 0 or not m or len(m.group(1)) != n:
@@ -316,6 +325,12 @@ def coq_results(pid: str, header: str, case_terms: list[str], checker: str, shar
             logs.append(f"{p.name}: rc={rc} {out[-1500:]}")
         else:
             results.extend(c == "1" for c in m.group(1))
+    if not logs:
+        for f in d.glob(f"{me}_*"):
+            try:
+                f.unlink()
+            except OSError:
+                pass
     return results, logs
 
 
